@@ -105,6 +105,18 @@ fn region_dirty(r: &Reg) -> BTreeSet<usize> {
     (0..b.len()).filter(|&p| b.is_bit_set(p)).collect()
 }
 
+/// does the request name no bytes at all?
+fn zero_len_op(kv: &Kv) -> bool {
+    match kv.op {
+        "g.rvf" | "g.revf" | "g.wvt" | "g.wavt" | "gr.rvf" | "gr.revf" | "gr.wvt" | "gr.wavt" => kv.us("count") == 0,
+        "g.write" | "g.wslice" | "gr.write" | "gr.wslice" => kv.s("data").is_empty(),
+        "g.read" | "g.rslice" | "gr.read" | "gr.rslice" => kv.us("len") == 0,
+        "g.wobj" | "g.robj" | "gr.wobj" | "gr.robj" => kv.us("ts") == 0,
+        "g.slice" | "gr.slice" => kv.us("cnt") == 0,
+        _ => false,
+    }
+}
+
 impl GmWorld {
     pub fn new() -> Self {
         GmWorld { pending: HashMap::new(), mems: HashMap::new(), layouts: HashMap::new(), info: HashMap::new(), by_ptr: HashMap::new(),
@@ -353,11 +365,27 @@ impl GmWorld {
             return self.streams.exec(&kv);
         }
         let op = kv.op.to_string();
+        // Xen build: an access that names no bytes must not ask the grant device for anything (C18: "successful
+        // no-op ... none of these panics"): the device is told to refuse its next request; a zero-length access
+        // must neither consume that refusal nor fall over it.
+        let zero_syn = zero_len_op(&kv);
+        #[cfg(feature = "xen")]
+        if zero_syn {
+            let _ = vm_memory::verif_hooks::xen_log_take();
+            vm_memory::verif_hooks::xen_fail_next();
+        }
         let r = guarded(|| self.exec_inner(rec, &kv, line));
+        #[cfg(feature = "xen")]
+        if zero_syn {
+            if !vm_memory::verif_hooks::xen_fail_pending() {
+                rec.fail("C18", &format!("{}/xen-zero-length-access-asked-the-device", op), line);
+            }
+            vm_memory::verif_hooks::xen_fail_clear();
+        }
         let out = match r {
             Some(o) => o,
             None => {
-                let zero = (kv.op.ends_with("vf") || kv.op.ends_with("vt")) && kv.us("count") == 0;
+                let zero = zero_syn && (kv.op.ends_with("vf") || kv.op.ends_with("vt"));
                 if zero {
                     // a count of 0 is a guest-chosen number like any other: both properties are broken
                     rec.fail("C18", &format!("{}/zero-count/panic", op), line);
